@@ -27,7 +27,10 @@ RULE = ("case = (initial output file in {absent, empty, header only, header+rows
         "call (every prefix of the session, also inside the constructor, x 4 initial states x 3 buffer states), for two crashes in a row "
         "(3 sessions) and sampled for two concurrent calls; normal exits (atexit), setups with a different header, an output path without "
         "extension, and two aggregators in one directory with interleaved steps and a common crash; non-trivial = a crash or exit "
-        "happened after at least one file operation of the session")
+        "happened after at least one file operation of the session; plus sequential histories over several LIVE sessions of one file "
+        "(new session / submission / interrupted submission through any session): every history of 4 steps (thorough: 5) over two "
+        "subjects and random longer ones, the files after every operation compared with Model/AggHistory.v, final outcome = one row "
+        "per subject")
 ASSUMPTIONS = [
     "one buffered append of a short row / header is atomic (a crash never leaves a partial line); real kill -9 timing and partial OS writes are outside the model",
     "a crash kills the whole process tree of a session: all calls vanish and both locks are free afterwards (the harness abandons the threads; they unwind without any further file operation)",
@@ -40,7 +43,10 @@ TRUSTED = ["harness/agg_sched.py: controlled scheduler and crash injection (no r
 LEVEL_TEXT = ("Theorems in Props/C17.v (Coq 8.16.1, closed under the global context) are proved by induction over histories of a transition "
               "system with constructor steps, call steps, Crash in every state, normal exit and restarts, for every number of calls, sessions "
               "and crash points and every initial/stale file content satisfying the stated invariant. Tied to the code by AST re-extraction "
-              "(GenEq_AggOps) and by lock-step trace validation of the real code with crash injection at every scheduling point.")
+              "(GenEq_AggOps) and by lock-step trace validation of the real code with crash injection at every scheduling point. "
+              "C17_live_sessions_history / C17_live_sessions_invariant: for every sequential history over any number of live sessions of "
+              "one file (older aggregator objects stay in use), the rows stay distinct and unaltered and a final resubmission yields "
+              "exactly one row per subject (Model/AggHistory.v, compared step by step with the real aggregator).")
 LEVEL_NOTE = ("Trusted: Coq kernel; AST translator; extraction + driver (cross-checked by vm_compute); scheduler harness. Assumed: atomic short "
               "append, whole-process crash, lock semantics. Partial: real kill timing / partial OS writes.")
 TECHNIQUE = "machine-checked proof in Rocq (Coq) of a transition system with crashes + AST re-translation (GenEq) + trace validation with crash injection"
@@ -202,6 +208,8 @@ def run(ctx):
         scens.append(sc)
     go(scens, "real Panoptica_Evaluator on 2x2 arrays, crash + restart", False, real=True)
 
+    htriples = session_histories(ctx)
+    triples = triples[:50] + htriples[:10]
     n, bad = common.coq_crosscheck("C17", triples[:60])
     ctx.crosschecked = n
     for b in bad:
@@ -226,6 +234,53 @@ def run(ctx):
                        "runs": n_rs, "exhaustive": False})
 
 
+def session_histories(ctx) -> list:
+    """sequential histories in which older sessions of the same output file stay in use next to newer ones (real aggregator code,
+    stub evaluator; no model: the oracle is the property's outcome)"""
+    import itertools
+    rng = ctx.rng
+    # every history of L steps over two equally long subject names and the sessions 0 / 1 (a session index is valid once created)
+    L = 5 if ctx.tier == "thorough" else 4
+    steps = [["new"]] + [[k, i, n] for k in ("ok", "die") for i in (0, 1) for n in ("s1", "s2")]
+    cases = []
+    for h in itertools.product(steps, repeat=L):
+        n_s, ok = 1, True
+        for st in h:
+            if st[0] == "new":
+                n_s += 1
+            elif st[1] >= n_s:
+                ok = False
+                break
+        if ok:
+            cases.append({"history_case": True, "subjects": ["s1", "s2"], "history": [list(st) for st in h], "file": "a.tsv", "sibling": "b.tsv"})
+    n_enum = len(cases)
+    cases += [A.history_case(rng) for _ in range(ctx.scale(60, 1500))]
+    results = []
+    for k in range(0, len(cases), 2000):
+        results += A.history_run(cases[k:k + 2000])
+    model = common.engine_run(OP + 4, [A.history_model_input(c) for c in cases])
+    n_bad = n_dis = 0
+    for case, res, mo in zip(cases, results, model):
+        d = A.history_trace_differs(case, res, mo)
+        if d and n_dis < 3:
+            n_dis += 1
+            ctx.disagree("live-session history: files after a step differ from Model/AggHistory.v", dict(case, differs=d))
+        ctx.count(case, any(s[0] == "new" for s in case["history"]))
+        ctx.bump("session history: %d sessions, %d interrupted" % (1 + sum(1 for s in case["history"] if s[0] == "new"),
+                                                                    sum(1 for s in case["history"] if s[0] == "die")))
+        probs = A.history_problems(case, res)
+        if probs and n_bad < 5:
+            n_bad += 1
+            ctx.violation("history of live sessions on one output file: " + "; ".join(probs[:3]), dict(case, result=res))
+    ctx.layers.append({"layer": f"every sequential history of {L} steps (new session / submit / interrupted submit through session 0 or 1, two "
+                                "subject names) of live sessions on one output file (+ a sibling), final resubmission through a fresh and "
+                                "through every old session", "cases": n_enum, "exhaustive": True})
+    ctx.layers.append({"layer": "random longer histories of live sessions (3-9 steps, name pools with equal / different lengths, quoted names)",
+                       "cases": len(cases) - n_enum, "exhaustive": False})
+    sample = list(range(n_enum, len(cases)))[:10]
+    return [(OP + 4, A.history_model_input(cases[i]), model[i]) for i in sample]
+
+
 def replay_restart():
     import random
     rc = 0
@@ -237,7 +292,25 @@ def replay_restart():
     return rc
 
 
+def replay_history(case):
+    res = A.history_run([case])[0]
+    probs = A.history_problems(case, res)
+    try:
+        d = A.history_trace_differs(case, res, common.engine_run(OP + 4, [A.history_model_input(case)])[0])
+        if "error" not in res:
+            print("model (Model/AggHistory.v) vs implementation, file states after every operation:", "agree" if d is None else f"DIFFER at {d}")
+    except Exception as e:  # noqa
+        print("model not available:", e)
+    print("history:", case["history"], "subjects:", case["subjects"])
+    print("output file:", res.get("out"), "\nsibling:", res.get("sib"))
+    print("PROPERTY FAILS ON THE IMPLEMENTATION: " + "; ".join(probs[:4]) if probs else "one complete row per subject in both files")
+    return 1 if probs else 0
+
+
 def replay(path):
+    d = json.loads(open(path).read())
+    if d.get("history_case"):
+        return replay_history(d)
     if json.loads(open(path).read()).get("restart_smoke"):
         return replay_restart()
     return A.replay_file(path, OP)
